@@ -300,9 +300,47 @@ def r5_parallel(ctx):
     ctx.floor('C10.R5', 'rayon entry points', n, 2)
 
 
+def r6_manifest_is_overwritten(ctx):
+    ctx.rule('C10.R6', 'P7/P3: GeneratedManifest::overwrite treats the manifest found on disk as write-only for the sections it owns: every use of '
+             'the existing document (and of anything obtained from it) is an IndexMut::index_mut whose result is assigned a freshly built item; no '
+             'accessor that reads or edits what is already there (get/get_mut/as_table*/insert/entry/remove/extend/sort*). Otherwise the '
+             'generated manifest depends on the previous generation (a dependency that is no longer needed survives).')
+    fn = 'pavexc::compiler::generated_app::GeneratedManifest::overwrite'
+    bodies = ctx.fb.bodies_of_item('pavexc', fn)
+    main = ctx.need('C10.R6', 'GeneratedManifest::overwrite', ctx.fb.body('pavexc', fn))
+    if main is None:
+        return
+    from ..flow import forward_derived
+    n_idx = 0
+    for b in bodies:
+        if b is main:
+            seeds = {2}
+        else:
+            continue
+        derived = forward_derived(b, seeds, through_calls=True)
+        # only values that are (references into) the document: toml_edit types
+        for bb, t in b.calls():
+            if not t['args']:
+                continue
+            pl = op_place(t['args'][0])
+            if pl is None or pl['l'] not in derived:
+                continue
+            ty = t['aty'][0] if t['aty'] else ''
+            if 'toml_edit' not in ty:
+                continue
+            c = callee(t) or ''
+            ok = c == 'core::ops::index::IndexMut::index_mut'
+            if ok:
+                n_idx += 1
+            ctx.ob('C10.R6', 'existing-manifest-use|%s' % c.split('::')[-1] + ('|%d' % n_idx if ok else ''), ok, b.loc(bb, t),
+                   '%s is applied to the existing manifest (%s)%s' % (c, ty.replace('&mut ', '&mut '), '' if ok else ': the previous contents are read or edited in place'))
+    ctx.floor('C10.R6', 'index_mut assignments into the existing manifest', n_idx, 3)
+
+
 def check(ctx):
     r1_hash_order(ctx)
     r2_single_writer(ctx)
     r3_check_mode(ctx)
     r4_cache_key(ctx)
     r5_parallel(ctx)
+    r6_manifest_is_overwritten(ctx)
